@@ -10,8 +10,11 @@ PROPS = {
                  "in order; uses the C11 tiling lemmas and that the end days are registered before Build), C20_zero_of_day_equation + C20_zero_when_only_external_flows_partial (prices declared on day one only, no annotations, "
                  "transactions of booking pairs, no --commodity, no zero denominator => EVERY return is exactly 0: the day equation V1-V0 = inflow+outflow is carried through ComputeValues, "
                  "ComputeFlows' split by sign, the cancellation of internal transfers, and Valuate booking no adjustment while prices rest), C20_ratio_without_flows (telescoping: V1(last)/V0(first)-1 over linked days without flows), C20_days_linked. Decided witnesses of two defects of "
-                 "the real code: C20_filtered_flow_counts (open) and C20_last_reports_own_period (repaired by 32cd4f9: Perf skips the days before the first reported period, model `perfSpan`, lemma perfSpan_filter, C20_before_first_period_skipped). NOT mechanised: the float64 arithmetic; the zero clause per single period and for the general notion of 'prices "
-                 "unchanged'; the equality of V1 with the valued balance (checked against `knut balance -v V --csv -s .` on every case instead). Tie: `portfolio returns`, `portfolio weights "
+                 "the real code: C20_filtered_flow_counts (open) and C20_last_reports_own_period (repaired by 32cd4f9: Perf skips the days before the first reported period, model `perfSpan`, lemma perfSpan_filter, C20_before_first_period_skipped). PER SINGLE PERIOD of an arbitrary journal (Properties/C20Periods.lean, the other periods arbitrary): C20_period_line (the line under p.stop is the chained factor of exactly the days of p, minus one, and the only line with that date), "
+                 "C20_zero_period_when_only_external_flows (every transaction of the period Plain = external flow / internal transfer / outside the portfolio, and the prices rest in the general sense PricesRestOn: every commodity of which an A/L account holds a non-zero quantity at the start of a day has the same normalised price after the day as before => the line is exactly 0; excluded are --commodity and a day with V0+inflow = 0, where the clause is false on the code: findings), "
+                 "C20_zero_period_of_monitor (the same from the executable test calmPeriodB, sound by calmPeriodB_sound), C20_ratio_period_without_flows / C20_ratio_period_of_records (no boundary-crossing transaction in the period, non-zero start values => line = V(p.stop)/V(p.start-1)-1, V = valueAt = V1 of the last day not after the date). "
+                 "V1 IS THE VALUED BALANCE (Properties/C20Balance.lean): C20_values_are_valued_balance, C20_v1_is_valued_balance, C20_weights_are_shares_of_valued_balance: over the same list of days the balance pipeline (Balance.run: check, ComputePrices, Valuate, Filter, CloseAccounts, Query) succeeds whenever the portfolio pipeline does and for every commodity c and column date D, V1(D)(c) = sum of the report inserts on A/L accounts, commodity c, columns <= D (same -v/--account/--commodity, no -m/--remap on the balance, days up to D inside the balance window or nothing booked yet). "
+                 "NOT mechanised: the float64 arithmetic; that the additional empty days the two commands register before Build (period ends vs period starts) change neither pipeline's figures, and the rendering of the inserts into report cells (both covered by the comparison with the real `knut balance -v V --csv -s .` on every case). Tie: `portfolio returns`, `portfolio weights "
                  "--csv` (+ text rendering for the tree depth) and `balance -v` run as subprocesses; returns/weights compared with the exact model after rounding to the printed digits (1-2 units).",
         "note": "Trusted: Lean kernel; axioms propext, Classical.choice, Quot.sound; float64 vs exact arithmetic bounded only by the per-case tolerance comparison; `Commodity.IsCurrency` is never "
                 "set by the CLI (pickTargets returns the annotation's list); sequential pipeline semantics (C19); yaml/regexp/cobra; sibling order under the weighted sort is compared as a set "
@@ -19,9 +22,12 @@ PROPS = {
         "rule": "streams portfolio (lifecycle journals over 3-800 days with re-pricing on later and otherwise empty days, x window from/to incl. period ends on days without directives, "
                 "six intervals, --last, account/commodity filters, universe files with nested classes, -m mappings with level 0-3 and suffix, -a), external (constant prices, no annotations: "
                 "every return must be 0), noflow (all transactions on the first day, then only price changes: return = end/start-1 from the balance totals), malformed (lifecycle mutations, "
-                "dropped prices, no -v, inverted windows, duplicate universe entries). class = (stream, outcomes, flag signature, size bucket).",
+                "dropped prices, no -v, inverted windows, duplicate universe entries), mixed (price changes and @performance annotations confined to one window of the span, several periods: single "
+                "periods satisfy the hypotheses of the 0%-clause, the journal does not). Per-period monitors: zero_period_when_calm (driver op `calm` = Performance.calmPeriods), ratio_without_flows. "
+                "class = (stream, outcomes, flag signature, size bucket).",
         "assumptions": ["exact rational arithmetic in place of float64 (outputs compared after rounding to the printed digits with 1-2 units tolerance)",
-                        "C20_zero_when_only_external_flows_partial assumes the day equation V1-V0 = net external flow, C20_ratio_without_flows non-zero start values"],
+                        "C20_zero_period_when_only_external_flows: no --commodity, V0+inflow != 0 on the days of the period (both are points where the clause fails on the code: known findings); C20_ratio_period_without_flows: non-zero start value on every day of the period",
+                        "C20_values_are_valued_balance: both pipelines over the same list of days; same -v/--account/--commodity, no -m/--remap on the balance; D a column of the balance report; days up to D inside the balance window or before the first booking"],
         "trusted": ["known findings: returns-commodity-filter-counts-filtered-flows, returns-meaningless-when-start-value-plus-inflow-vanishes"],
     },
     "C16": {
